@@ -11,7 +11,7 @@ import (
 
 // C05: encoding canonical, representation-independent, round-trips.
 func C05(c *Ctx) {
-	n := c.N(8000, 400000)
+	n := c.N(16000, 500000)
 	for i := int64(0); i < n; i++ {
 		if !c.Mine(i) {
 			continue
